@@ -357,9 +357,14 @@ def _ionic_strength_pieces(repo, src, tree):
     lim_assign = _one([n for n in body if isinstance(n, ast.Assign) and seg(usrc, n.targets[0]) == 'lim'], '`lim = ...`')
     lim_if = _one([n for n in body if isinstance(n, ast.If) and ' '.join(seg(usrc, n.test).split()) == 'atol is not None'],
                   '`if atol is not None:`')
-    if not (len(lim_if.body) == 1 and isinstance(lim_if.body[0], ast.AugAssign) and isinstance(lim_if.body[0].op, ast.Add)
-            and seg(usrc, lim_if.body[0].target) == 'lim' and not lim_if.orelse):
-        raise ExtractError('units.allclose: `lim += atol` changed')
+    st = lim_if.body[0] if len(lim_if.body) == 1 and not lim_if.orelse else None
+    if isinstance(st, ast.AugAssign) and isinstance(st.op, ast.Add) and seg(usrc, st.target) == 'lim':
+        lim_added = st.value                                            # `lim += atol`
+    elif (isinstance(st, ast.Assign) and len(st.targets) == 1 and seg(usrc, st.targets[0]) == 'lim' and isinstance(st.value, ast.BinOp)
+          and isinstance(st.value.op, ast.Add) and _norm(usrc, st.value.left) == 'lim'):
+        lim_added = st.value.right                                      # `lim = lim + atol`  (same value, not in place)
+    else:
+        raise ExtractError('units.allclose: `lim = lim + atol` changed')
     t2 = trys[1]
     if not (len(t2.body) == 1 and ' '.join(seg(usrc, t2.body[0]).split()) == 'len(d)' and len(t2.handlers) == 1
             and getattr(t2.handlers[0].type, 'id', None) == 'TypeError' and len(t2.handlers[0].body) == 1
@@ -375,9 +380,11 @@ def _ionic_strength_pieces(repo, src, tree):
         'def is_neutral_atol(%s):\n    return %s\n' % (T, seg(src, an['atol'])),
         'def allclose_d(a, b):\n    return %s\n' % seg(usrc, d_assign.value),
         'def allclose_lim(a, rtol, atol):\n    lim = %s\n    lim = lim + (%s)\n    return lim\n'
-        % (seg(usrc, lim_assign.value), seg(usrc, lim_if.body[0].value)),
+        % (seg(usrc, lim_assign.value), seg(usrc, lim_added)),
     ])
-    return py, ret_text
+    # the two array returns (scalar lim / broadcast of lim and d) are hand-modelled: their text is guarded
+    arr_text = ' ; '.join(' '.join(ast.unparse(n).split()) for n in t2.orelse)
+    return py, ret_text, arr_text
 
 
 def _signature(tree, name, lean):
@@ -442,7 +449,7 @@ def generate(repo):
     tr('davies_log_gamma', 'daviesLogGammaD', ['IS', 'z', 'A'])
     tr('davies_log_gamma', 'daviesLogGammaDC', ['IS', 'z', 'A', 'C'])
     # expressions of ionic_strength and of the scalar path of allclose, verbatim from the source text
-    pysrc, ret_text = _ionic_strength_pieces(repo, src0, tree0)
+    pysrc, ret_text, arr_text = _ionic_strength_pieces(repo, src0, tree0)
     ptree = ast.parse(pysrc)
     absf = {'abs': ('HasPyAbs.pabs', 'HasPyAbs')}
     for py, ln in (('is_term_tot', 'isTermTot'), ('is_term_net', 'isTermNet'), ('is_result', 'isResult'),
@@ -452,6 +459,8 @@ def generate(repo):
                                           doc='expression of the source (see tools/extract/electrolytes.py)'))
     parts.append('/-- the scalar return of chempy.units.allclose (`except TypeError:` branch of `len(d)`), source text -/\n'
                  'def allcloseReturnText : String := %s\n' % lean_str(ret_text))
+    parts.append('/-- the array branch of chempy.units.allclose (`else:` of `try: len(d)`), normalised source text -/\n'
+                 'def allcloseArrayBranchText : String := %s\n' % lean_str(arr_text))
     usrc, utree = parse(repo, 'chempy/units.py')
     for name, lean in (('ionic_strength', 'sigIonicStrength'), ('A', 'sigA'), ('B', 'sigB'), ('limiting_log_gamma', 'sigLimiting'),
                        ('extended_log_gamma', 'sigExtended'), ('davies_log_gamma', 'sigDavies'),
